@@ -545,7 +545,7 @@ def _first_state_diff(a, b):
 class Sim:
     id = ID
     level = LEVEL
-    runs = {"quick": 700}
+    runs = {"quick": 1000}
     budget = {"thorough": 600}
     chunk = {"quick": 10, "thorough": 10}
     cross_n = 12
@@ -614,6 +614,12 @@ class Sim:
         for _ in range(n):
             pool = [x for x in prefer if x in leaves] if (prefer and rng.random() < 0.5) else leaves
             pool = pool or leaves
+            if items and rng.random() < 0.4:
+                # siblings / cousins of a leaf already in this write: shared key prefixes in one update
+                first = items[0][0].split("_")
+                sib = [x for x in leaves if x.split("_")[:1] == first[:1] and x != items[0][0]]
+                sib2 = [x for x in sib if x.split("_")[:len(first) - 1] == first[:-1]]
+                pool = sib2 if (sib2 and rng.random() < 0.5) else (sib or pool)
             leaf = rng.choice(pool)
             tgt = sm.alias_target(leaf) if sm.is_alias(leaf) else leaf
             if tgt in used:
